@@ -459,15 +459,37 @@ func evalLoad(c *core.Ctx, f []string) *core.Case {
 		for _, b := range orig.bindings {
 			in[b] = true
 		}
+		origData := core.UnHex(f[4])
+		class := faultClass(data, origData)
+		dRecs, oRecs := dhcp.VerifDecode(data).Leases, dhcp.VerifDecode(origData).Leases
 		n := 0
 		for _, b := range r.bindings {
 			if !in[b] {
-				return fmt.Sprintf("damaged lease file yields binding %s -> client %x mac %x that is absent from the original file", c11.Addr(b.ip), b.cid, b.mac), "forged-binding"
+				what := fmt.Sprintf("damaged lease file (%s) yields binding %s -> client %x mac %x that is absent from the original file", class, c11.Addr(b.ip), b.cid, b.mac)
+				if forgedShape(class, b, dRecs, oRecs) {
+					return what, "forged-binding"
+				}
+				return what, ""
 			}
 			n++
 		}
 		if n != 0 && n != len(orig.bindings) {
-			return fmt.Sprintf("damaged lease file yields %d of the %d original bindings (neither intact nor empty)", n, len(orig.bindings)), "partial-table"
+			what := fmt.Sprintf("damaged lease file (%s) yields %d of the %d original bindings (neither intact nor empty)", class, n, len(orig.bindings))
+			if class == "truncation" {
+				// a cut file may only keep the LEADING records: the survivors must be the first n accepted records of the original
+				k := 0
+				for _, o := range oRecs {
+					ob := bindingT{string(o.CID), string(o.MAC), ipOf(o.IP)}
+					if !in[ob] {
+						continue
+					}
+					if k < n && !hasBinding(r.bindings, ob) {
+						return what + ": the survivors are not the leading records of the original", ""
+					}
+					k++
+				}
+			}
+			return what, "partial-table"
 		}
 		return "", ""
 	}
@@ -477,6 +499,124 @@ func evalLoad(c *core.Ctx, f []string) *core.Case {
 		cs.Cmp = func(a, b string) bool { return true }
 	}
 	return cs
+}
+
+func ipOf(a netip.Addr) uint32 {
+	if a.Is4() {
+		return c11.U32(a)
+	}
+	return 0
+}
+
+func hasBinding(bs []bindingT, b bindingT) bool {
+	for _, x := range bs {
+		if x == b {
+			return true
+		}
+	}
+	return false
+}
+
+// faultClass recognises how the bytes were derived from the original file.
+func faultClass(data, orig []byte) string {
+	switch {
+	case bytes.Equal(data, orig):
+		return "intact"
+	case len(data) < len(orig) && bytes.HasPrefix(orig, data):
+		return "truncation"
+	case len(data) == len(orig):
+		d := 0
+		for i := range data {
+			if data[i] != orig[i] {
+				d++
+			}
+		}
+		if d == 1 {
+			return "substitution"
+		}
+	}
+	dl, ol := bytes.SplitAfter(data, []byte("\n")), bytes.SplitAfter(orig, []byte("\n"))
+	if len(dl) == len(ol)-1 || len(dl) == len(ol)+1 {
+		short, long := dl, ol
+		if len(dl) > len(ol) {
+			short, long = ol, dl
+		}
+		i := 0
+		for i < len(short) && bytes.Equal(short[i], long[i]) {
+			i++
+		}
+		if bytes.Equal(bytes.Join(short[i:], nil), bytes.Join(long[i+1:], nil)) {
+			if len(dl) < len(ol) {
+				return "line-deletion"
+			}
+			if i > 0 && bytes.Equal(long[i], long[i-1]) {
+				return "line-duplication"
+			}
+		}
+	}
+	return "other"
+}
+
+func diffCount(a, b []byte) int {
+	if len(a) != len(b) {
+		return -1
+	}
+	n := 0
+	for i := range a {
+		if a[i] != b[i] {
+			n++
+		}
+	}
+	return n
+}
+
+// forgedShape is the matcher of the known finding `forged-binding` (KNOWN_FINDINGS.txt): the lease file has no
+// integrity check, so ONE damaged scalar of an otherwise intact record yields a well-formed different binding:
+//   - truncation: only the address of the LAST record cut short (same client id and MAC, the loaded address
+//     text is a proper prefix of the original one);
+//   - single-byte substitution: the record at the same position differs in exactly one of client id / MAC
+//     (one element changed or voided; MAC field dropped) / address;
+//   - line deletion / duplication: the record at the same position differs only by one element removed from /
+//     repeated in its client id or MAC list.
+//
+// Anything else (e.g. a truncated file producing another client id) is not this finding.
+func forgedShape(class string, b bindingT, dRecs, oRecs []dhcp.VerifFileLease) bool {
+	idx := -1
+	for i, d := range dRecs {
+		if string(d.CID) == b.cid && string(d.MAC) == b.mac && ipOf(d.IP) == b.ip {
+			idx = i
+			break
+		}
+	}
+	if idx < 0 || idx >= len(oRecs) {
+		return false
+	}
+	o := oRecs[idx]
+	sameCID, sameMAC, sameIP := string(o.CID) == b.cid, string(o.MAC) == b.mac, ipOf(o.IP) == b.ip
+	switch class {
+	case "truncation":
+		return idx == len(dRecs)-1 && sameCID && sameMAC && !sameIP && o.IP.IsValid() &&
+			strings.HasPrefix(o.IP.String(), c11.Addr(b.ip).String()) && o.IP.String() != c11.Addr(b.ip).String()
+	case "substitution":
+		// one element changed, or one element voided (its line turned into a comment), or the MAC dropped with its damaged key
+		switch {
+		case !sameCID && sameMAC && sameIP:
+			return diffCount(o.CID, []byte(b.cid)) == 1 || len(b.cid)+1 == len(o.CID)
+		case sameCID && !sameMAC && sameIP:
+			return diffCount(o.MAC, []byte(b.mac)) == 1 || len(b.mac)+1 == len(o.MAC) || len(b.mac) == 0
+		case sameCID && sameMAC && !sameIP:
+			return true
+		}
+	case "line-deletion", "line-duplication":
+		oneOff := func(x, y []byte) bool { return len(x) == len(y)+1 || len(x)+1 == len(y) }
+		switch {
+		case !sameCID && sameMAC && sameIP:
+			return oneOff(o.CID, []byte(b.cid))
+		case sameCID && !sameMAC && sameIP:
+			return oneOff(o.MAC, []byte(b.mac))
+		}
+	}
+	return false
 }
 
 func Eval(c *core.Ctx, line string) *core.Case {
@@ -543,8 +683,8 @@ func Gen(c *core.Ctx) {
 	// restarts after random histories (the generator of C11), all modes and configurations
 	nh := c.Scale(150, 3000)
 	for k := 0; k < nh; k++ {
-		cfgIdx := k % len(c11.Cfgs)
-		mode := 1 + (k/len(c11.Cfgs))%3
+		cfgIdx := k % c11.NumBase
+		mode := 1 + (k/c11.NumBase)%3
 		ops := c11.RandomHistory(c, cfgIdx, 8+c.Rnd.Intn(40))
 		parts := make([]string, len(ops))
 		for i, o := range ops {
@@ -557,8 +697,8 @@ func Gen(c *core.Ctx) {
 	}
 	// happy-path populations: k clients obtain leases (some captured), then the server restarts
 	for k := 0; k < c.Scale(36, 400); k++ {
-		cfgIdx := k % len(c11.Cfgs)
-		mode := 1 + (k/len(c11.Cfgs))%3
+		cfgIdx := k % c11.NumBase
+		mode := 1 + (k/c11.NumBase)%3
 		var parts []string
 		n := 1 + c.Rnd.Intn(4)
 		host := c11.Cfgs[cfgIdx].Host.AsSlice()
@@ -606,9 +746,23 @@ func Gen(c *core.Ctx) {
 			c.Add(*cs)
 		}
 	}
+	// a lease file of configuration h24n29 under configurations that differ in one SubnetConfig field: the constructor must reset
+	nch := 0
+	for _, sf := range saved {
+		if sf.cfgIdx != 0 || bytes.Count(sf.data, []byte("state: 2")) == 0 || nch >= c.Scale(3, 30) {
+			continue
+		}
+		nch++
+		for v := c11.NumBase; v < len(c11.Cfgs); v++ {
+			other := sf
+			other.cfgIdx = v
+			add(other, sf.data, "changed-config")
+		}
+	}
 	for fi, sf := range files {
 		d := sf.data
 		add(sf, d, "intact")
+
 		step := 1
 		if fi >= c.Scale(2, 12) {
 			step = 7
